@@ -199,11 +199,18 @@ func c18Run(c *c18Case, env *fw.Env, v *fw.V) {
 		v.Inconclusive("parse", "%v", err)
 		return
 	}
+	perturb.Rendezvous("", 0)
 	if c.Hook > 0 {
 		perturb.ConfigureSites(map[string]float64{"pset.afterstart": c.Hook, "pset.beforesub": c.Hook, "pset.waited": c.Hook, "process.started": c.Hook / 2}, 500)
 	} else {
 		perturb.Off()
+		if c.Waits == "three" {
+			// the three concurrent waiters leave the wait group together: align them
+			// right behind it, where they decide who reports completion
+			perturb.Rendezvous("pset.waited", 3)
+		}
 	}
+	defer perturb.Rendezvous("", 0)
 	ctx, cancel := context.WithCancel(context.Background())
 	defer cancel()
 	engine := bpmn.NewEngine(bpmn.WithEngineContext(ctx))
